@@ -267,6 +267,9 @@ def main(prop_id, tier):
     modname = f"harness.{prop_id.lower()}"
     sys.path.insert(0, VERIF)
     mod = importlib.import_module(modname)
+    if getattr(mod, "ENGINE", "symx") == "crosshair":
+        from xh import driver as xhd
+        return xhd.main(prop_id, tier, mod)
     workers = int(os.environ.get("VERIF_WORKERS", "16"))
     budget = mod.BUDGET_S[tier] if hasattr(mod, "BUDGET_S") else {"quick": 900, "thorough": 3600}[tier]
     deadline = t_start + budget
